@@ -23,6 +23,9 @@ def cases(ctx, budget):
         out.append((data, ''.join(kinds)))
     for _ in range(budget):
         out.append(gen.stream(rng, rng.choice([1, 2, 3, 5, 8, 12])))
+    # large messages (1-5 kB): valid, failing the CRC, false headers announcing that much - next to ordinary tokens
+    for _ in range(max(6, budget // 10)):
+        out.append(gen.stream(rng, rng.choice([2, 3, 4]), 'LKMLKMVUZJ'))
     # malformed stream: pure random, all sync bytes, lengths at the limits
     for n in (0, 1, 23, 24, 25, 100):
         out.append((bytes(rng.randrange(256) for _ in range(n)), 'rand%d' % n))
